@@ -29,7 +29,8 @@ std::string describe(const Case& c)
 static const std::vector<std::string>& name_pool()
 {
     static const std::vector<std::string> p = { "a",   "ab", "abc", "verbose", "x-y", "out", "o",
-                                                "v",   "n",  "in.put", "q_1", "A",   "no",  "x y" };
+                                                "v",   "n",  "in.put", "q_1", "A",   "no",  "x y",
+                                                "\xc3\xa4nderung" };
     return p;
 }
 static const std::string letter_pool = "abovxyzn1_.A:\xe4\xf6";
@@ -466,6 +467,8 @@ static void gen_c02(vf::Src& src, Case& c)
             if (src.coin(65))
             {
                 std::string v = gen_value(src);
+                if (e.has_default && src.coin(30))
+                    v = e.def; // spelled explicitly although it equals the default
                 e.want = { v };
                 streams.push_back({ render_value(e, v) });
             }
@@ -622,6 +625,12 @@ static void gen_c03(vf::Src& src, Case& c, bool exhaustive)
             e.mdef = exhaustive ? std::vector<std::string>{ "d1", "d2" }
                                 : std::vector<std::string>{ gen_value(src), gen_value(src) };
         bool on_cmd = flag(src, exhaustive, 50);
+        if (!exhaustive && e.env_bound && i > 0 && src.coin(15))
+        {
+            int a = src.irange(0, i - 1);
+            if (c.e[static_cast<std::size_t>(a)].env_bound && c.e[static_cast<std::size_t>(a)].env_alias < 0)
+                e.env_alias = a;
+        }
         c.e.push_back(e);
         st.env_state.push_back(envs >= 2 ? envs - 1 : 0);
         std::string w;
@@ -1062,7 +1071,8 @@ Case generate(vf::Src& src, const std::string& mode)
     // The statements hold for every parse() on a parser object, not only the first one: in a
     // third of the cases an unrelated command line is parsed on the same object beforehand
     // (its outcome is ignored), then the case proper.
-    if ((mode == "c01" || mode == "c03" || mode == "c04" || mode == "c11" || mode == "c12") && src.coin(30))
+    if ((mode == "c01" || mode == "c02" || mode == "c03" || mode == "c04" || mode == "c11" || mode == "c12") &&
+        src.coin(30))
     {
         Step warm = blank_step(c);
         int k = src.irange(0, 4);
